@@ -18,7 +18,7 @@ import (
 
 func c12Gen(t *rapid.T, r *h.Rec) specCase {
 	av, onEx, onCl := avoidOpts(r)
-	o := &synth.Opts{Avoid: av, OnExclude: onEx, OnClass: onCl, SubPkgs: true, SameNamePkgs: true, ZeroArrays: true, NamedRecursion: true, StdNamedPkgs: true, ShortModule: true, Spelling: true, Unions: 1, Generics: true, Aliases: true,
+	o := &synth.Opts{Avoid: av, OnExclude: onEx, OnClass: onCl, SubPkgs: true, SameNamePkgs: true, ForeignUnions: true, ZeroArrays: true, NamedRecursion: true, StdNamedPkgs: true, ShortModule: true, Spelling: true, Unions: 1, Generics: true, Aliases: true,
 		Recursion: true, Embedded: true, StdTypes: true, FixedArrays: true, Maps: true, Times: true, Pointers: true, RareBasics: true, TagVariety: true,
 		EnumStress: false, MaxDecls: 10, MinDecls: 2}
 	return specCase{Spec: synth.GenTypes(t, o)}
@@ -213,8 +213,9 @@ func c12Check(c specCase, r *h.Rec) error {
 		return h.Violf("analysis crashed: %s at %s\n%s", ls.oc.Msg, ls.oc.Stack, src())
 	}
 	if ls.oc.Panicked {
-		r.Refused++
-		return nil
+		// the generator of this property only writes supported programs (every interface has members, no
+		// pointer / channel / function / anonymous struct): a refusal means that reachable types are missing
+		return h.Violf("analysis refuses (%s) a program made of supported declarations only: no type graph at all\n%s", clip(ls.oc.Msg, 200), src())
 	}
 	an := ls.an
 	unions := c.Spec.Unions()
